@@ -53,7 +53,7 @@ class C10(Check):
                    'every module with an injected error, and no configured value has reached any driver',
                    'values are compared in wire form by the harness\' own conversion']
     PROBES = ('c10.good-config', 'c10.bad-config', 'c10.multi-file', 'c10.limits-overridden', 'c10.write-configured',
-              'c10.several-errors') + tuple(f'c10.err.{k}' for k in ERROR_KINDS)
+              'c10.several-errors', 'c10.restart') + tuple(f'c10.err.{k}' for k in ERROR_KINDS)
 
     def gen_case(self, rng, tier):
         specs = []
@@ -136,7 +136,7 @@ class C10(Check):
                 cfgs[m]['file'] = 1
         shape = {'p_switch': rng.choice([0.1, 0.3]), 'line_gaps': rng.choice([0, 0, 10]),
                  'specs': specs, 'cfgs': cfgs, 'nfiles': nfiles,
-                 'first_write_slow': rng.random() < 0.2}
+                 'first_write_slow': rng.random() < 0.2, 'restart': rng.random() < 0.25}
         return {'shape': shape, 'ops': []}
 
     # ------------------------------------------------------------------ config text
@@ -243,6 +243,16 @@ class C10(Check):
             srv = Server('gen0', world.rootlog, cfgfiles=names, interface='tcp://10767')
             world.servers.append(srv)
             srv._processCfg()
+            if shape.get('restart'):
+                # the node is restarted as Server.run() does after Server.restart(): the modules are shut down and
+                # the configuration loaded at construction is applied once more; the second generation is judged
+                time.sleep(0.2)
+                sim.count('c10.restart')
+                srv.secnode.shutdown_modules()
+                time.sleep(0.1)
+                del drv.calls[:]
+                srv.restart_hook()
+                srv._processCfg()
         except SystemExit as e:
             ctx['exit'] = ('SystemExit', e.code)
         except Exception as e:   # noqa
